@@ -49,6 +49,17 @@ CHECKS.update({
  "C17": ("model_checking", "small-scope exhaustive enumeration of key sets and adversarial parameterised families, each paired with every prefix-lifted copy; size oracle",
          "Default options, nil values: all subsets up to the tier's size, all scaffolds, caterpillars / long-step trees / fan-out-11 / all-distinct-bitmap families / testkeys sets; for every K and every prefix P (1..16000 bytes of each symbol) the pair (K, P+K). Oracle: len(Marshal) <= 8n+256, |len(K)-len(P+K)| <= 24.",
          "Bounded families (n <= 10^5 only via the archived sets); tolerance 24 bytes justified in DESIGN.md 5.C17.", "5.C17"),
+ "C05": ("model_checking", "small-scope exhaustive enumeration (answer preservation, byte stability) plus explicit-state exploration of load/reset histories with a differential oracle",
+         _SS + "(a) fresh vs loaded instances answer every query of every kind identically (result-to-result); (b) same input built repeatedly gives identical bytes, len(Marshal) = proto.Size = len(proto.Marshal), re-marshal of a loaded trie reproduces the bytes; (c) every sequence of length <= 3 over {Unmarshal(s), proto.Unmarshal(s)} x 14 streams (current modes, big+short nodes, legacy 0.5.3/0.5.9/0.5.10, truncated, bad version) and Reset, from a never-used and a built instance: the observation vector equals that of a fresh instance that only loaded the last stream.", _NOTE, "5.C05"),
+ "C06": ("model_checking", "independent legacy writer models bound to the code base by regenerating the 97 archived fixtures byte-for-byte on every run; model streams for exhaustively enumerated key sets are fed to the real loader",
+         "Writer models of all historical layouts (three-array family in 7 byte-distinct flavours, 0.5.10/0.5.11 x nopref/innpref/allpref). Conformance: all 97 archived files regenerated byte-for-byte (traces_validated_against_impl). Exploration: all key sets of K(U21,4/5), scaffolds over K(U21,2), step lengths 0..300 / 512 / 1024 / 4096 / 65534 nibbles, empty / single-key sets, large regular sets x every layout x {Unmarshal, proto.Unmarshal}. Oracle: loads without error; Get/RangeGet/Search neighbours on every key, lookup relations on the query universe, KeyCnt = n; allpref: exact ordered-map answers and scans.",
+         "The archived fixtures are the ground truth for the old writers; shapes no fixture witnesses follow the same writer algorithm.", "5.C06"),
+ "C07": ("model_checking", "crash-point enumeration: every strict prefix of valid streams of every layout, and exhaustive enumeration of a version-string grammar, against a reference recogniser",
+         "Every cut 0..len-1 of valid streams of every layout (current format in 8 modes with/without values, all legacy writer models; key sets <= 2 keys + two scaffolded sets) x prior instance state {new, built, loaded} x {Unmarshal, proto.Unmarshal}; every X.Y.Z (X<=2,Y<=9,Z<=20), every string of length <= 4/5 over {0,1,5,.,-,a}, released/successor/pre-release/malformed/non-terminated strings in front of current and legacy bodies. Oracle: prefix => error, no panic; incompatible => ErrIncompatible; afterwards every lookup reports not found and every scan yields nothing.",
+         "Build-metadata versions excluded (semver-equal to compatible ones); Stat after a rejected load unspecified.", "5.C07"),
+ "C20": ("model_checking", "small-scope exhaustive enumeration with overwrite-after-call fault patterns and a deep reachability digest",
+         "Build: keys/values/Opt (81 pointer combinations on the smallest sets, both call forms) compared with deep copies, then caller memory overwritten: observations and deep digest unchanged. Load: every current-format stream of the space and every legacy layout's stream: buffer unmodified, then overwritten with 00/ff/address pattern: observations AND digest unchanged. Marshal: returned bytes overwritten: observations, digest and second Marshal unchanged.",
+         "Retention through uintptr or closures would escape the digest.", "5.C20"),
 })
 NOT_YET = {}
 
